@@ -756,3 +756,78 @@ func zzC01c2CallerSlices() {
 	}
 	vf.Reach("end")
 }
+
+// C02.e: Upstream.resume — the resume request carries the original stream id; on success the stream
+// talks under exactly the alias the broker assigned (0 included), listens to that alias's acks and is
+// Connected again; on ResumeRequestConflict it retries; any other code closes the stream with an error.
+func zzC02eResume() {
+	w := zzNewWorld(message.QoSReliable, &flushPolicyNone{}, newInmemSentStorage())
+	u := w.u
+	oldAlias := u.idAlias
+	newAlias := vf.U32("resume.alias")
+	conflicts := vf.Choose("conflicts.first", 2)
+	final := vf.Choose("final.code", 2) // 0 succeeded, 1 stream not found
+	var reqs []*message.UpstreamResumeRequest
+	// a fresh wire connection (after the reconnect) answering the resume request
+	tr2 := wire.ZZNewFakeTransport()
+	wc2 := wire.ZZNewClientConn(tr2, nil)
+	wire.ZZStartRequestLoop(wc2)
+	tr2.OnWrite = func(m message.Message) error {
+		switch r := m.(type) {
+		case *message.UpstreamResumeRequest:
+			reqs = append(reqs, r)
+			code := message.ResultCodeSucceeded
+			if len(reqs) <= conflicts {
+				code = message.ResultCodeResumeRequestConflict
+			} else if final == 1 {
+				code = message.ResultCodeStreamNotFound
+			}
+			wire.ZZDeliverRequest(wc2, &message.UpstreamResumeResponse{RequestID: r.RequestID, AssignedStreamIDAlias: newAlias, ResultCode: code})
+		case *message.UpstreamCloseRequest:
+			wire.ZZDeliverRequest(wc2, &message.UpstreamCloseResponse{RequestID: r.RequestID, ResultCode: message.ResultCodeSucceeded})
+		}
+		return nil
+	}
+	u.state.Swap(streamStatusResuming)
+	err := u.resume(wc2)
+	vf.Assert("resume-requests-carry-the-original-stream-id", len(reqs) == conflicts+1 && reqs[0].StreamID == u.ID && reqs[len(reqs)-1].StreamID == u.ID)
+	if final == 1 {
+		vf.Assert("refused-resume-is-an-error", err != nil)
+		vf.Assert("refused-resume-closes-the-stream", u.isClosed())
+		vf.Reach("refused")
+		return
+	}
+	vf.Assert("resume-ok", err == nil)
+	vf.Assert("talks-under-the-assigned-alias", u.idAlias == newAlias)
+	vf.Assert("uses-the-new-connection", u.wireConn == wc2)
+	vf.Assert("connected-again", u.state.Current() == streamStatusConnected)
+	// a chunk cut after the resume goes out on the new connection under the new alias
+	id := zzDataID("after")
+	u.sendBuffer[*id] = zzPoints("after", 1)
+	u.sendBufferDataPointsCount = 1
+	ferr := u.flush(u.ctx)
+	vf.Settle()
+	var sent []*message.UpstreamChunk
+	for _, m := range tr2.Msgs() {
+		if c, ok := m.(*message.UpstreamChunk); ok {
+			sent = append(sent, c)
+		}
+	}
+	vf.Assert("chunk-after-resume-reaches-the-new-connection", ferr == nil && len(sent) == 1 && len(w.chunks()) == 0)
+	if len(sent) == 1 {
+		vf.Assert("chunk-after-resume-carries-the-new-alias", sent[0].StreamIDAlias == newAlias)
+	}
+	// acks for the new alias reach the stream's ack channel
+	wire.ZZStartAckLoop(wc2)
+	ack := &message.UpstreamChunkAck{StreamIDAlias: newAlias}
+	wire.ZZDeliverAck(wc2, ack)
+	vf.Settle()
+	var got *message.UpstreamChunkAck
+	select {
+	case got = <-u.ackCh:
+	default:
+	}
+	vf.Assert("acks-of-the-new-alias-reach-the-stream", got == ack)
+	_ = oldAlias
+	vf.Reach("resumed")
+}
